@@ -626,6 +626,14 @@ func (tr *fnTrans) specCall(x ECall, env *specEnv) (Term, error) {
 		return T(tr.wf(args[0], al), SBool), nil
 	case "arr":
 		return T(slArr(args[0].S), SInt), nil
+	case "mget", "mhas": // lookups in Go maps (map sorts are generated per key/value type)
+		if len(args) == 2 && args[0].T != nil && strings.HasPrefix(args[0].T.Name, "M_") {
+			if x.Fn == "mhas" {
+				return T(app("mhas_"+args[0].T.Name, args[0].S, args[1].S), SBool), nil
+			}
+			return T(app("mget_"+args[0].T.Name, args[0].S, args[1].S), args[0].T.Elem), nil
+		}
+		return Term{}, fmt.Errorf("%s of non-map", x.Fn)
 	case "isa": // ghost: the pointer refers to an object allocated with its static struct type
 		if args[0].T == nil || args[0].T.Name != "Int" || args[0].T.Elem == nil {
 			return Term{}, fmt.Errorf("isa of non-pointer")
